@@ -2607,6 +2607,18 @@ def slice_fn(item, opts, fired):
     _, b = find(opts["to"])
     if b < a:
         raise ExtractError("lost anchor: slice end precedes slice start")
+    # the range must consist of whole statements of ONE block (an end anchor that now sits in a different nesting level, e.g.
+    # after two loops were swapped, would cut a block in two)
+    depth = 0
+    for t in item[a:b + 1]:
+        if t.kind == "punct" and t.text in OPEN:
+            depth += 1
+        elif t.kind == "punct" and t.text in CLOSE:
+            depth -= 1
+            if depth < 0:
+                break
+    if depth != 0:
+        raise ExtractError("lost anchor: slice anchors are not in the same block (unbalanced statement range)")
     fired["slice"] = 1
     return synth(opts["header"] + " {\n        ") + item[a:b + 1] + synth("\n}")
 
